@@ -42,7 +42,7 @@ class NoBridge(Exception):
 
 def extension_fields(e):
     """-> (type code, extension_data bytes) from the public attributes of an extension object"""
-    tn = type(e).__name__
+    tn = core.ename(e)
     t = code(e.extension_type)
     if tn == 'TlsExtensionUnparsed':
         return t, bytes(e.extension_data)
@@ -239,7 +239,7 @@ def check_object(acc, cls, o, w):
     try:
         back = pcls.parse_exact_size(exp)
     except Exception as e:  # noqa
-        acc.violation('reference_rejected:%s:%s' % (tn, type(e).__name__), 'RFC encoding of a %s is rejected' % tn, w)
+        acc.violation('reference_rejected:%s:%s' % (tn, core.ename(e)), 'RFC encoding of a %s is rejected' % tn, w)
         return
     try:
         if reference_bytes(back) != exp:
@@ -395,7 +395,7 @@ def _wire_worker(part):
         try:
             o = cls.parse_exact_size(wire)
         except Exception as e:  # noqa
-            acc.violation('spec_form_rejected:%s:%s' % (label, type(e).__name__),
+            acc.violation('spec_form_rejected:%s:%s' % (label, core.ename(e)),
                           'a specification-conformant %s (%s) is rejected: %s' % (cls.__name__, label, str(e)[:80]), w)
             continue
         try:
@@ -404,7 +404,7 @@ def _wire_worker(part):
             acc.count('no_bridge')
             continue
         except Exception as e:  # noqa
-            acc.violation('spec_form_fields:%s:%s' % (label, type(e).__name__), 'fields of the parsed object cannot be '
+            acc.violation('spec_form_fields:%s:%s' % (label, core.ename(e)), 'fields of the parsed object cannot be '
                           'read back', w)
             continue
         exp = wire
